@@ -536,6 +536,9 @@ func propC19(t *rapid.T) {
 			if _, isStop := o.Panic.(interface{ Error() string }); isStop && strings.Contains(fmt.Sprint(o.Panic), "[rapid]") {
 				panic(o.Panic)
 			}
+			if strings.HasPrefix(fmt.Sprintf("%T", o.Panic), "rapid.") {
+				panic(o.Panic) // the library's own control flow (skip, invalid data while shrinking)
+			}
 			t.Fatalf("chain event %s made the wallet PANIC: %v\n%s\n  %s", what, o.Panic, repoFrames(o.Stack), w.journalTail(10))
 		}
 		if o.Kind == "fatal" || o.Kind == "stall" {
@@ -554,9 +557,17 @@ func propC19(t *rapid.T) {
 				}
 			}
 		},
-		"mine":    func(t *rapid.T) { w.withChainChange(t, func() { w.actMine(t, true) }) },
-		"reorg":   func(t *rapid.T) { w.withChainChange(t, func() { w.actReorg(t) }) },
-		"mempool": w.actMempool,
+		// chain events run under a watchdog: an event that neither returns nor panics (the follower parked
+		// on a lock somebody forgot to release) is the "silently stalled" of the statement
+		"mine": func(t *rapid.T) {
+			guarded("block", func() { w.withChainChange(t, func() { w.actMine(t, true) }) })
+		},
+		"reorg": func(t *rapid.T) {
+			guarded("reorganisation", func() { w.withChainChange(t, func() { w.actReorg(t) }) })
+		},
+		"mempool": func(t *rapid.T) {
+			guarded("unconfirmed transaction", func() { w.actMempool(t) })
+		},
 		"lateImport": func(t *rapid.T) {
 			// leave a wallet in the importing state while API calls continue
 			if lateImport || rapid.IntRange(0, 2).Draw(t, "doImport") > 0 {
